@@ -53,7 +53,9 @@ type c09Case struct {
 	Warm     []c09WarmStep `json:"warm,omitempty"` // binds made before the one under test, in the same process
 	Fields   []c09Field    `json:"fields,omitempty"`
 	InitSeed int64         `json:"init_seed"`
-	Op       string        `json:"op"` // param | query | header | bind | body (BindBody alone)
+	Serial   string        `json:"serializer,omitempty"` // e.JSONSerializer: "" default | raw (application serializer returning the decoder's plain errors) | strict (the same, unknown fields rejected)
+	Binder   string        `json:"binder,omitempty"`     // e.Binder: "" default | delegate (application binder calling DefaultBinder.Bind)
+	Op       string        `json:"op"`                   // param | query | header | bind | body (BindBody alone)
 	Method   string        `json:"method,omitempty"`
 	Params   []c09KV       `json:"params,omitempty"` // one value each
 	Query    []c09KV       `json:"query,omitempty"`
@@ -852,6 +854,15 @@ func c09QueryOf(c *c09Case) (map[string][]string, bool) {
 
 func c09Context(c *c09Case) echo.Context {
 	e := echo.New()
+	switch c.Serial {
+	case "raw":
+		e.JSONSerializer = verifRawJSON{}
+	case "strict":
+		e.JSONSerializer = verifRawJSON{strict: true}
+	}
+	if c.Binder == "delegate" {
+		e.Binder = verifDelegatingBinder{}
+	}
 	req, _ := c09Request(c)
 	ctx := e.NewContext(req, httptest.NewRecorder())
 	if len(c.Params) > 0 {
@@ -923,7 +934,11 @@ func c09Decoded(c *c09Case, t reflect.Type, kind string) (out string) {
 	_, body := c09Request(c)
 	var err error
 	if kind == "json" {
-		err = json.NewDecoder(strings.NewReader(body)).Decode(d.Interface())
+		dec := json.NewDecoder(strings.NewReader(body))
+		if c.Serial == "strict" {
+			dec.DisallowUnknownFields()
+		}
+		err = dec.Decode(d.Interface())
 	} else {
 		err = xml.NewDecoder(strings.NewReader(body)).Decode(d.Interface())
 	}
@@ -1016,7 +1031,10 @@ func c09Run(ci any) (res Result) {
 	var berr error
 	panicked := ""
 	served := false
-	if c.LenMode == "server" && bodyStep && len(c.Params) == 0 && len(c.Header) == 0 &&
+	if c.Serial != "" || c.Binder != "" {
+		tags = append(tags, "app-parts:"+c.Serial+"/"+c.Binder)
+	}
+	if c.LenMode == "server" && c.Serial == "" && c.Binder == "" && bodyStep && len(c.Params) == 0 && len(c.Header) == 0 &&
 		(method == "GET" || method == "POST" || method == "PUT" || method == "PATCH" || method == "DELETE") {
 		// the same request over a real connection, body uploaded without a declared length
 		_, bodyStr := c09Request(c)
